@@ -159,6 +159,95 @@ fn dcr_mt(input: &[V]) -> Vec<V> {
     vec![(n * threads) as V, multi, once, mx as V]
 }
 
+/// C19 Map-level dedup: two real Maps share one path secret; the sending Map issues one-shot
+/// sealers (key ids 0, 1, 2, ... in order), the receiving Map opens the packets in the order of
+/// the case (a delivery schedule of key ids, with replays), through
+/// `Map::open_once` -> `open::Once::decrypt_in_place` -> `Dedup::check` -> `State::check_dedup`
+/// -> `receiver::State::post_authentication`.
+/// output per delivery: 0 opened, 1 ReplayDefinitelyDetected, 2 ReplayPotentiallyDetected (unknown), 3 other
+fn dedup(input: &[V]) -> Vec<V> {
+    use s2n_codec::{DecoderBufferMut, EncoderBuffer};
+    use s2n_quic_dc::{
+        crypto::open::{Application as _, Error},
+        event,
+        packet::datagram,
+        path::secret::{stateless_reset::Signer, Map},
+    };
+    use std::net::SocketAddr;
+    let new_map = |signer: &[u8]| {
+        Map::new(
+            Signer::new(signer),
+            64,
+            false,
+            s2n_quic_core::time::NoopClock,
+            event::tracing::Subscriber::default(),
+        )
+    };
+    let a = new_map(b"signer of the sending map");
+    let b = new_map(b"signer of the receiving map");
+    let a_addr: SocketAddr = "10.0.0.9:4433".parse().unwrap();
+    let b_addr: SocketAddr = "10.0.0.1:4433".parse().unwrap();
+    let id = verif_hooks::insert_pair(&a, a_addr, &b, b_addr);
+    // the schedule; ids beyond the cap are clamped (the generator stays below it)
+    let schedule: Vec<u64> = input.iter().map(|v| (*v).clamp(0, 4095) as u64).collect();
+    let issued = schedule.iter().copied().max().map_or(0, |m| m + 1);
+    // issue the one-shot keys in order and seal one packet for every key id that gets delivered
+    let mut packets: Vec<Option<(Credentials, Vec<u8>)>> = Vec::with_capacity(issued as usize);
+    for k in 0..issued {
+        let (sealer, creds, _params) = a.seal_once_id(id).expect("entry present");
+        assert_eq!(creds.key_id.as_u64(), k, "key ids are issued sequentially");
+        if !schedule.contains(&k) {
+            packets.push(None);
+            continue;
+        }
+        let payload = [k as u8, (k >> 8) as u8, 0xd5];
+        let mut buf = vec![0u8; 128];
+        let len = datagram::encoder::encode(
+            EncoderBuffer::new(&mut buf),
+            0,
+            None,
+            None,
+            VarInt::ZERO,
+            &mut &[][..],
+            &(),
+            VarInt::from_u8(payload.len() as u8),
+            &mut &payload[..],
+            &sealer,
+            &creds,
+        );
+        buf.truncate(len);
+        packets.push(Some((creds, buf)));
+    }
+    let mut out = vec![];
+    let mut control_out = vec![];
+    for k in schedule {
+        let (creds, bytes) = packets[k as usize].as_ref().expect("sealed above");
+        let mut bytes = bytes.clone();
+        let code = match b.open_once(creds, None, &mut control_out) {
+            None => 2, // pre_authentication refused (reserved maximum only; not reachable here)
+            Some(opener) => {
+                let (mut p, _) = datagram::decoder::Packet::decode(DecoderBufferMut::new(&mut bytes), (), 16)
+                    .expect("packet sealed by the harness");
+                let header = p.header().to_vec();
+                let tag = p.auth_tag().to_vec();
+                let kp = p.tag().key_phase();
+                let nonce = p.crypto_nonce();
+                match opener.decrypt_in_place(kp, nonce, &header, p.payload_mut(), &tag) {
+                    Ok(()) => {
+                        assert_eq!(p.payload(), &[k as u8, (k >> 8) as u8, 0xd5][..]);
+                        0
+                    }
+                    Err(Error::ReplayDefinitelyDetected) => 1,
+                    Err(Error::ReplayPotentiallyDetected { .. }) => 2,
+                    Err(_) => 3,
+                }
+            }
+        };
+        out.push(code);
+    }
+    out
+}
+
 fn main() {
-    main_with(&[("dcr", dcr), ("dcs", dcs), ("dcs_mt", dcs_mt), ("dcr_mt", dcr_mt)]);
+    main_with(&[("dcr", dcr), ("dcs", dcs), ("dcs_mt", dcs_mt), ("dcr_mt", dcr_mt), ("dedup", dedup)]);
 }
